@@ -133,6 +133,25 @@ func init() {
 		}
 		return nil, ExceptionNewf(KeyError, "%v", key)
 	}, 0, "pop(k[,d]) -> v, remove specified key and return the corresponding value; d or KeyError if absent")
+
+	StringDictType.Dict["setdefault"] = MustNewMethod("setdefault", func(self Object, args Tuple) (Object, error) {
+		var key Object
+		var dflt Object = None
+		err := UnpackTuple(args, nil, "setdefault", 1, 2, &key, &dflt)
+		if err != nil {
+			return nil, err
+		}
+		d := self.(StringDict)
+		str, ok := key.(String)
+		if !ok {
+			return nil, ExceptionNewf(KeyError, "FIXME can only have string keys!: %v", key)
+		}
+		if res, ok := d[string(str)]; ok {
+			return res, nil
+		}
+		d[string(str)] = dflt
+		return dflt, nil
+	}, 0, "setdefault(k[,d]) -> D.get(k,d), also set D[k]=d if k not in D")
 }
 
 // String to object dictionary
